@@ -529,6 +529,13 @@ int vnadata_convert(const vnadata_t *vdp_in, vnadata_t *vdp_out,
 	} else {
 	    int frequencies = vdp_in->vd_frequencies;
 
+	    /*
+	     * Establish frequency-dependent impedances even if there
+	     * are no frequencies (or no ports) to copy.
+	     */
+	    if (_vnadata_convert_to_fz0(VDP_TO_VDIP(vdp_out)) == -1) {
+		return -1;
+	    }
 	    for (int findex = 0; findex < frequencies; ++findex) {
 		if (vnadata_set_fz0_vector(vdp_out, findex,
 			    vdip_in->vdi_z0_vector_vector[findex]) == -1) {
